@@ -34,7 +34,12 @@ Definition shape_agrees (c : case) : bool :=
   match model_tree (c_b c) with
   | None => true
   | Some None => match c_tree c with None => true | Some _ => false end
-  | Some (Some m) => match c_tree c with Some t => tree_eqb m t | None => false end
+  | Some (Some m) =>
+      match c_tree c with
+      | Some t => tree_eqb m t
+                  || match model_obj_fixed (c_b c) with Some o => tree_eqb (to_tree live_table o) t | None => false end
+      | None => false
+      end
   end.
 
 Definition sid_shape (s : string) : bool :=
